@@ -82,6 +82,15 @@ CHECKS = {
                 "the CPUID bit test, the XGETBV OS-state test and the next-lower flag. These are necessary conditions; byte-identity of "
                 "results across backends/configurations is NOT decided.",
     },
+    "C13": {
+        "engine": "PathAI (E1) + sibling agreement (E7)",
+        "technique": "path-sensitive analysis of overlap normalisation before the first output write",
+        "text": "Static, for all pointer/length combinations: in the four overlap-tolerant detached secretbox functions (the easy and box "
+                "forms only delegate to them) the first write through the output is preceded on every path by memmove(out, in, len) with the "
+                "input pointer rebound, or by facts excluding both overlap directions; signing moves the message with memmove before any "
+                "other write to sm and opening writes m only with memmove / constant fill. This is the structural clause of C13; equality of "
+                "outputs for every overlap offset and hazards inside the cipher cores under in == out are not decided.",
+    },
     "C14": {
         "engine": "scalar-evolution byte coverage (E9) + PathAI (E1, conditional constant propagation)",
         "technique": "loop add-recurrence / trip-count coverage; constant-bound unrolling with data-dependence slice",
